@@ -3,7 +3,7 @@
 set -e
 cd "$(dirname "$0")"
 mkdir -p _build
-cp gen/model.ml gen/model.mli util.ml c13.ml c07.ml c05.ml c06.ml ps.ml rr.ml c03.ml c14.ml c04.ml c12.ml srv.ml stall.ml tls.ml main.ml _build/
+cp gen/model.ml gen/model.mli util.ml c13.ml c07.ml c05.ml c06.ml ps.ml rr.ml c03.ml c14.ml c04.ml c12.ml srv.ml stall.ml tls.ml shut.ml main.ml _build/
 cd _build
-ocamlfind ocamlopt -O2 -w -a -package str,unix -linkpkg model.mli model.ml util.ml c13.ml c07.ml c05.ml c06.ml ps.ml rr.ml c03.ml c14.ml c04.ml c12.ml srv.ml stall.ml tls.ml main.ml -o ../driver 2>&1 || \
-ocamlfind ocamlopt -w -a -package str,unix -linkpkg model.mli model.ml util.ml c13.ml c07.ml c05.ml c06.ml ps.ml rr.ml c03.ml c14.ml c04.ml c12.ml srv.ml stall.ml tls.ml main.ml -o ../driver
+ocamlfind ocamlopt -O2 -w -a -package str,unix -linkpkg model.mli model.ml util.ml c13.ml c07.ml c05.ml c06.ml ps.ml rr.ml c03.ml c14.ml c04.ml c12.ml srv.ml stall.ml tls.ml shut.ml main.ml -o ../driver 2>&1 || \
+ocamlfind ocamlopt -w -a -package str,unix -linkpkg model.mli model.ml util.ml c13.ml c07.ml c05.ml c06.ml ps.ml rr.ml c03.ml c14.ml c04.ml c12.ml srv.ml stall.ml tls.ml shut.ml main.ml -o ../driver
